@@ -195,7 +195,7 @@ var kinds = []string{"file", "dir", "emptydir", "symlink", "device"}
 
 func build(rng *rand.Rand) ([]byte, string) {
 	var e enc
-	construct := []string{"name", "name", "name-nested", "surplus-goodbye", "symlink-then-dir", "symlink-then-file", "symlink-then-device", "nested-symlink-then-dir", "preexisting", "mix", "replace-chain", "replace-chain", "symlink-then-slashname", "nameless", "nameless", "root-nondir", "random-sequence", "random-sequence"}[rng.Intn(18)]
+	construct := []string{"name", "name", "name-nested", "surplus-goodbye", "symlink-then-dir", "symlink-then-file", "symlink-then-device", "nested-symlink-then-dir", "preexisting", "mix", "replace-chain", "replace-chain", "symlink-then-slashname", "nameless", "nameless", "root-nondir", "random-sequence", "random-sequence", "tempname-symlink"}[rng.Intn(19)]
 	kind := kinds[rng.Intn(len(kinds))]
 	name := hostileNames[rng.Intn(len(hostileNames))]
 	if rng.Intn(6) == 0 {
@@ -217,6 +217,28 @@ func build(rng *rand.Rand) ([]byte, string) {
 	}
 	tag := construct
 	switch construct {
+	case "tempname-symlink":
+		// a symlink leading out under a name that an implementation might use for its temporary file while it creates
+		// the entry "f" that follows (f plus a suffix, a dot prefix, ...): nothing may be written through it
+		target := []string{"/outside/sentinel", "../../../outside/sentinel", "/outside/planted", "/outside", "/sentinel"}[rng.Intn(5)]
+		nm := []string{"f", "data.bin", "a"}[rng.Intn(3)]
+		for _, suf := range []string{".tmp", ".temp", ".part", ".partial", ".new", ".bak", ".swp", "~", ".desync-partial", ".desync-tmp", ".desync", ".lock", ".0"} {
+			if rng.Intn(3) != 0 {
+				e.filename(nm + suf)
+				e.entry(mLnk)
+				e.symlink(target)
+			}
+		}
+		if rng.Intn(2) == 0 {
+			e.filename("." + nm + ".tmp")
+			e.entry(mLnk)
+			e.symlink(target)
+		}
+		// names sort after their own prefixes: put the entry itself last (order in the stream is what matters)
+		e.filename(nm)
+		e.node([]string{"file", "file", "device", "emptydir"}[rng.Intn(4)], rng)
+		e.goodbye()
+		tag += "|" + target
 	case "nameless":
 		// an ENTRY without a FILENAME in front of it (legal only for the root): it takes the path of the directory it sits
 		// in, so a nameless file / symlink can replace that directory and later entries are created through it
